@@ -78,24 +78,33 @@ func signStartIn(stmts []*gen.Node) bool {
 	return false
 }
 
-// Tree returns the id of the listed finding whose class the program belongs to, or "".
-func Tree(stmts []*gen.Node) string {
-	res := ""
+// Classes returns the set of listed findings whose class the program belongs to.
+func Classes(stmts []*gen.Node) map[string]bool {
+	res := map[string]bool{}
 	if pbt.KnownOpen(SignStartStatement) && signStartIn(stmts) {
-		return SignStartStatement
+		res[SignStartStatement] = true
 	}
 	gen.WalkAll(stmts, func(n *gen.Node) {
-		if res != "" {
-			return
-		}
 		if pbt.KnownOpen(RightAssocParens) && rightSamePrec(n) {
-			res = RightAssocParens
+			res[RightAssocParens] = true
 		}
 		if pbt.KnownOpen(SignStartStatement) && (signStartIn(n.Body) || signStartIn(n.Else)) {
-			res = SignStartStatement
+			res[SignStartStatement] = true
 		}
 	})
 	return res
+}
+
+// Tree returns the id of one listed finding whose class the program belongs to, or "".
+func Tree(stmts []*gen.Node) string {
+	c := Classes(stmts)
+	switch {
+	case c[SignStartStatement]:
+		return SignStartStatement
+	case c[RightAssocParens]:
+		return RightAssocParens
+	}
+	return ""
 }
 
 // Repair rewrites the tree so that it leaves every listed class: an offending right operand is turned
@@ -165,18 +174,17 @@ func astStartsWithSign(n ast.Node) bool {
 	return false
 }
 
-// Ast returns the id of the listed finding whose class the parsed program belongs to, or "".
-func Ast(prog ast.Node) string {
-	res := ""
-	var visit func(n ast.Node) ast.Node
+// AstClasses returns the set of listed findings whose class the parsed program belongs to.
+func AstClasses(prog ast.Node) map[string]bool {
+	res := map[string]bool{}
 	checkList := func(l []ast.Node) {
 		for i, s := range l {
 			if i > 0 && pbt.KnownOpen(SignStartStatement) && astStartsWithSign(s) {
-				res = SignStartStatement
+				res[SignStartStatement] = true
 			}
 		}
 	}
-	visit = func(n ast.Node) ast.Node {
+	visit := func(n ast.Node) ast.Node {
 		switch x := n.(type) {
 		case *ast.Statements:
 			if x != nil {
@@ -185,7 +193,7 @@ func Ast(prog ast.Node) string {
 		case *ast.InfixExpression:
 			if p, ok := astPrec(x); ok && pbt.KnownOpen(RightAssocParens) {
 				if rp, ok2 := astPrec(x.Right); ok2 && rp == p {
-					res = RightAssocParens
+					res[RightAssocParens] = true
 				}
 			}
 		}
@@ -194,4 +202,16 @@ func Ast(prog ast.Node) string {
 	defer func() { _ = recover() }() // a malformed tree is not this package's business
 	ast.ModifyNoOk(prog, visit)
 	return res
+}
+
+// Ast returns the id of one listed finding whose class the parsed program belongs to, or "".
+func Ast(prog ast.Node) string {
+	c := AstClasses(prog)
+	switch {
+	case c[SignStartStatement]:
+		return SignStartStatement
+	case c[RightAssocParens]:
+		return RightAssocParens
+	}
+	return ""
 }
